@@ -188,7 +188,8 @@ def plan(tier, seed):
         ("DTIMING all digraphs x durations x delays N=3", "DTIMING", {"n": 3, "vals": (1, 2), "inf": INF3, "workers": 4}),
     ]
     if tier == "quick":
-        jobs += directed_samples(seed, 4, 2500, 2500, 0)
+        jobs += [("DTYPED all digraphs x types x tables N=2", "DTYPED", {"n": 2, "types": (1, 2), "walk": True, "workers": 1})]
+        jobs += directed_samples(seed, 4, 1500, 0, 0)
     if tier == "thorough":
         jobs += [
             ("DTYPED all digraphs x types x tables N=2, 3 types", "DTYPED", {"n": 2, "types": (1, 2, 3), "walk": True, "workers": 4}),
@@ -373,7 +374,7 @@ def main(argv=None):
             "complete decision trees of percolate_network / estimate_SIR_prob_size under the scripted random source; all (graph, transmission table) "
             "on <=4 nodes and all (graph, xi/zeta types, type table) on 3 nodes -> nonMarkov_directed_percolate_network / estimate_nonMarkov_SIR_prob_size "
             "with recording callbacks, the same on DIRECTED contact networks (nx.DiGraph; every arc set on 3 nodes x tables, and x durations/delays in "
-            "{1,2} ticks; seeded sample of 4-node digraphs x tables / types); all (graph, durations, delays in {1,2,Inf} ticks) on <=3 nodes -> the _with_timing variants, and the Markovian-"
+            "{1,2} ticks; seeded sample of 4-node digraphs x tables; types on 2 nodes); all (graph, durations, delays in {1,2,Inf} ticks) on <=3 nodes -> the _with_timing variants, and the Markovian-"
             "realisable ones -> directed_percolate_network / estimate_directed_SIR_prob_size with scripted expovariate values"
             + ("; thorough adds seeded samples (GIVEN scenarios evaluated by TLC) of 5- and 6-node digraphs, 5-node bond/rule and 4/5-node typed/timing scenarios" if chk.tier == "thorough" else "")
             + ". evaluations = calls of the real functions; traces_validated = returned answers/graphs compared with a TLC record; "
